@@ -14,6 +14,9 @@ Ops (impl result after `=>`):
   wx trk hex                                   => same, arbitrary bytes
   sr trk ntp rtp                               => ev=- fc=- st=…   SetTimeOffset (sender report)
   so trk ts nowNs / ao trk ts                  => ev=- fc=- st=…   setOrigin / adjustOrigin called directly
+  at ms                                        => ok <entry us> <exit us>   real-time delivery: the harness waits until
+                                                               ms after the creation of the recorder; its own clock
+                                                               on entry and on return (an observed input)
   close kind                                   => ev=… fc=… st=… open=<n> locals=<n> files=<n> F:… T:… B:…
 
 events (ev, comma separated, in order): g<seq>:<n> GetPacket; k RequestKeyframe reached the publisher;
@@ -105,6 +108,8 @@ structure Orc where
   fileSpecs : List (String × Nat × Nat) := []   -- ext, w, h per I event (oldest first)
   srs : List (Nat × Nat × Nat) := []   -- trk, ntp, rtp (newest first)
   srOps : List (Nat × Nat) := []       -- trk, op of every sender report
+  srGood : List (Nat × Nat) := []      -- trk, op of every sender report that is a capture-time reference (NTP time not 0)
+  fileOps : List Nat := []             -- op of every I event (oldest first)
   srSince : List Bool := []        -- a sender report arrived on the track since its last block
   alignFrom : Nat := 0
   synthetic : Bool := false
@@ -116,6 +121,18 @@ structure Orc where
   opn : Nat := 0                                  -- ops so far
   pops : List (Nat × Nat × Nat) := []             -- trk, ts, op of every S event
   partialSeen : List (Nat × Nat) := []            -- (trk, fid): the builder returned a partial frame
+  -- real-time delivery (op `at`): arrival times according to the harness's clock
+  paced : Bool := false
+  unpacedArr : Bool := false                      -- a packet reached the recorder before the first `at`
+  atExit : Nat := 0                               -- the harness's clock (us) when the last `at` returned
+  ts0 : List (Option Nat) := []                   -- timestamp of the first packet sent, per track
+  -- packets that reached the recorder since the last `at`: track, media time (us since `ts0`)
+  pendArr : List (Nat × Int) := []
+  -- per track: least and greatest (arrival time − media time) over the packets that reached the recorder,
+  -- with the arrival time taken at the beginning resp. end of its bracket
+  agg : List (Option (Int × Int)) := []
+  -- pairs of blocks to be judged at the next `at`: track, frame, block time (ms), media time (us), twice
+  pendPairs : List ((Nat × Nat × Nat × Int) × (Nat × Nat × Nat × Int)) := []
   deriving Inhabited
 
 structure St where
@@ -312,6 +329,7 @@ def addPkt (o : Orc) (p : SentPkt) : Orc :=
   let p := { p with ord := o.nsent.getD p.trk 0 }
   let o := { o with sent := p :: o.sent, nsent := o.nsent.set p.trk (p.ord + 1) }
   let o := if (o.seq0.getD p.trk none).isNone then { o with seq0 := o.seq0.set p.trk (some p.seq) } else o
+  let o := if (o.ts0.getD p.trk none).isNone then { o with ts0 := o.ts0.set p.trk (some p.ts) } else o
   let upd (f : Frame) : Frame :=
     let ps := (f.pkts.filter (·.idx ≠ p.idx))
     let ps := (ps.takeWhile (·.idx < p.idx)) ++ [p] ++ (ps.dropWhile (·.idx < p.idx))
@@ -387,6 +405,46 @@ def regularTrk (o : Orc) (trk : Nat) : Bool :=
 
 def defer (o : Orc) (msg : String) : Orc := if o.deferred.isSome then o else { o with deferred := some msg }
 
+/-- media time (us) of timestamp `ts` on the track's own clock, counted from the first timestamp sent -/
+def mediaUs (o : Orc) (trk ts : Nat) : Int :=
+  i32 (sub32 ts ((o.ts0.getD trk none).getD 0)) * 1000000 / ((o.rates.getD trk 1 : Nat) : Int)
+
+/-- a packet with timestamp `ts` reaches the recorder (delivered or recovered) -/
+def arrive (o : Orc) (trk ts : Nat) : Orc :=
+  if o.codecs.length ≠ 2 then o
+  else if !o.paced then { o with unpacedArr := true }
+  else { o with pendArr := (trk, mediaUs o trk ts) :: o.pendArr }
+
+/-- an `at` op: the packets that reached the recorder since the last one did so between its return and
+this one's entry -/
+def closeBracket (o : Orc) (entry : Nat) : Orc :=
+  let agg := o.pendArr.foldl (fun (agg : List (Option (Int × Int))) (trk, m) =>
+    let lo : Int := (o.atExit : Int) - m
+    let hi : Int := (entry : Int) - m
+    agg.set trk (match agg.getD trk none with
+      | none => some (lo, hi)
+      | some (a, b) => some (min a lo, max b hi))) o.agg
+  { o with agg, pendArr := [] }
+
+/-- **Shared origin, by arrival times.**  No sender reports relate the clocks of the two tracks, so the
+recorder can only go by when packets arrive.  Every pair (A, V) of an audio and a video packet that has
+reached it is evidence that A's and V's capture instants are as far apart as their arrivals; a file in which
+the blocks x, y of the two tracks are placed further apart or closer together than EVERY such pair says
+(with its arrival bracket) has no single instant as the origin of both tracks. -/
+def judgePairs (o : Orc) : Orc × Option String :=
+  if !o.pendArr.isEmpty || o.unpacedArr then ({ o with pendPairs := [] }, none) else
+  let e := o.pendPairs.findSome? fun ((tx, fx, tmx, mx), (ty, fy, tmy, my)) =>
+    match o.agg.getD tx none, o.agg.getD ty none with
+    | some (ax, bx), some (ay, byy) =>
+      let got : Int := ((tmx : Int) - (tmy : Int)) * 1000
+      let lo : Int := (mx - my) + (ax - byy)
+      let hi : Int := (mx - my) + (bx - ay)
+      if got < lo - 2500 || got > hi + 2500 then
+        some s!"C20: audio and video do not share one time origin: no sender reports relate the clocks of the two tracks, only the arrival times do; frames {fx} (track {tx}) and {fy} (track {ty}) are placed {(tmx : Int) - (tmy : Int)} ms apart, but by the arrival times (the harness's clock) of every pair of packets of the two tracks that had reached the recorder they were captured between {lo / 1000} and {hi / 1000} ms apart"
+      else none
+    | _, _ => none
+  ({ o with pendPairs := [] }, e)
+
 /-- one block handed to the container writer -/
 def onBlock (o : Orc) (trk : Nat) (kf : Bool) (tm len h1 h2 file : Nat) : Orc × Option String :=
   if o.synthetic then (o, none) else
@@ -461,14 +519,40 @@ def onBlock (o : Orc) (trk : Nat) (kf : Bool) (tm len h1 h2 file : Nat) : Orc ×
   match tmErr with
   | some e => (o, some e)
   | none =>
+  -- one origin per track and file: between two blocks of a track in one file, with no sender report for
+  -- the track in between, block times advance as the RTP timestamps do (each is the whole number of ms
+  -- since the same origin)
+  let linErr : Option String :=
+    match prev with
+    | some b =>
+      if regular && b.file = file && !(o.srSince.getD trk false) then
+        let fx := (o.frames.find? (fun f => f.trk = trk && f.fid = fid)).getD default
+        let fy := (o.frames.find? (fun f => f.trk = trk && f.fid = b.fid)).getD default
+        let k := o.rates.getD trk 1000 / 1000
+        let dts := sub32 fx.ts fy.ts
+        if k = 0 || dts ≥ two31 || tm < b.tm then none
+        else if tm - b.tm < dts / k || tm - b.tm > dts / k + 1 then
+          some s!"C20: the track does not keep one time origin within the file: frames {b.fid} and {fid} of track {trk} are {dts} ticks ({dts / k} ms) apart but their block times {b.tm} and {tm} differ by {tm - b.tm} ms, and no sender report for the track arrived in between"
+        else none
+      else none
+    | none => none
+  match linErr with
+  | some e => (o, some e)
+  | none =>
   let blk : Block := { file, trk, kf, tm, len, h1, h2, fid, lo, hi, op := o.opn }
   -- shared origin: with sender reports on both tracks, capture instants and block times agree
+  -- (the other track's latest block in this file since the last event that may move an origin: a file
+  -- is created, an origin is set, a sender report arrives)
+  let partner : Option Block :=
+    if o.codecs.length = 2 && regularTrk o 0 && regularTrk o 1 then
+      (o.blocks.take (o.nblocks - o.alignFrom)).find? (fun b => b.trk = 1 - trk && b.file = file)
+    else none
+  let bothSR := srConsistent o 0 && srConsistent o 1
   let alignErr : Option String :=
-    if o.codecs.length = 2 && srConsistent o 0 && srConsistent o 1 && regularTrk o 0 && regularTrk o 1 then
-      let other := 1 - trk
-      match (o.blocks.take (o.nblocks - o.alignFrom)).find? (fun b => b.trk = other && b.file = file) with
-      | none => none
-      | some b =>
+    match partner with
+    | some b =>
+      if !bothSR then none else
+        let other := 1 - trk
         let fx := (o.frames.find? (fun f => f.trk = trk && f.fid = fid)).getD default
         let fy := (o.frames.find? (fun f => f.trk = other && f.fid = b.fid)).getD default
         match capture o trk fx.ts, capture o other fy.ts with
@@ -478,10 +562,22 @@ def onBlock (o : Orc) (trk : Nat) (kf : Bool) (tm len h1 h2 file : Nat) : Orc ×
             some s!"C20: audio and video do not share one time origin: frames {fid} (track {trk}) and {b.fid} (track {other}) were captured {(cx - cy) / 1000} us apart according to the sender reports but their block times differ by {(tm : Int) - (b.tm : Int)} ms"
           else none
         | _, _ => none
-    else none
+    | none => none
   match alignErr with
   | some e => (o, some e)
   | none =>
+  -- without sender reports for both tracks: by arrival times, when the delivery was in real time
+  -- (judged at the next `at`, when the arrival bracket of the packet that caused this block is known)
+  let o : Orc :=
+    match partner with
+    | some b =>
+      -- (a track with a sender report that the oracle does not use — NTP time 0, or reports that contradict
+      -- each other — is not judged either way)
+      if bothSR || !o.paced || o.srOps.any (fun (t, _) => !srConsistent o t) then o else
+        let fx := (o.frames.find? (fun f => f.trk = trk && f.fid = fid)).getD default
+        let fy := (o.frames.find? (fun f => f.trk = b.trk && f.fid = b.fid)).getD default
+        { o with pendPairs := ((trk, fid, tm, mediaUs o trk fx.ts), (b.trk, b.fid, b.tm, mediaUs o b.trk fy.ts)) :: o.pendPairs }
+    | none => o
   ({ o with blocks := blk :: o.blocks, nblocks := o.nblocks + 1, srSince := o.srSince.set trk false }, none)
 
 /-- process the events of one implementation line -/
@@ -492,7 +588,7 @@ def onEvents (o : Orc) (evs fcs : List String) : Orc × Option String :=
       let f := fields (e.drop 1).toString
       let dims := ((f.getD 1 "0x0").splitOn "x").map (fun s => (nat? s).getD 0)
       { o with nfiles := o.nfiles + 1, fileSpecs := o.fileSpecs ++ [(f.getD 0 "", dims.getD 0 0, dims.getD 1 0)],
-               alignFrom := o.nblocks }
+               alignFrom := o.nblocks, fileOps := o.fileOps ++ [o.opn] }
     else o) o
   let rec go (o : Orc) (evs : List String) : Orc × Option String :=
     match evs with
@@ -551,10 +647,48 @@ def missingCheck (o : Orc) : Orc × Option String :=
          window.length = (last - first + 1).toNat && window.all okPkt)
       let recorded (f : Frame) : Bool := o.blocks.any (fun b => b.trk = trk && b.fid = f.fid)
       let written := frames.filter recorded
+      let lastFileIdx := o.nfiles - 1
       -- from where on are frames owed?
       let start : Option Nat :=
         if video then (frames.find? (fun f => f.kf && okUpTo f)).map (·.fid)
         else (written.head?).map (·.fid)
+      -- audio beside video: a frame that reaches the recorder while the (last) file is open and whose
+      -- capture instant is at least 100 ms after that of the keyframe the file begins with is "after the
+      -- first keyframe": it is owed, too, whether or not an earlier audio frame was written.  The capture
+      -- instants are related by the sender reports, if both tracks had one when the file was created, else
+      -- (real-time delivery only) by the arrival times: the frame must be later than the keyframe by every
+      -- pair of packets of the two tracks that reached the recorder.  Not judged when a sender report
+      -- arrived after the file was created (it may move an origin: the [SR-shift] finding).
+      let owedBySync : Option Nat :=
+        if video || o.codecs.length ≠ 2 then none else
+        let vt := 1 - trk
+        match o.fileOps.getLast?, (o.blocks.filter (fun b => b.trk = vt && b.file = lastFileIdx)).getLast? with
+        | some nf, some v0 =>
+          if !o.srOps.all (fun (_, sop) => sop ≤ nf) then none else
+          let fv := (o.frames.find? (fun f => f.trk = vt && f.fid = v0.fid)).getD default
+          let bothSR := srConsistent o 0 && srConsistent o 1 && o.srGood.any (·.1 = 0) && o.srGood.any (·.1 = 1)
+          let byArrival := !bothSR && o.paced && !o.unpacedArr && o.pendArr.isEmpty &&
+            o.srOps.all (fun (t, _) => srConsistent o t)
+          let after (f : Frame) : Bool :=
+            if bothSR then
+              match capture o trk f.ts, capture o vt fv.ts with
+              | some cf, some cv => (v0.tm : Int) * 1000000 + (cf - cv) ≥ 100000000
+              | _, _ => false
+            else if byArrival then
+              match o.agg.getD trk none, o.agg.getD vt none with
+              | some (amin, _), some (_, bmax) =>
+                (v0.tm : Int) * 1000 + (mediaUs o trk f.ts - mediaUs o vt fv.ts) + (amin - bmax) ≥ 100000
+              | _, _ => false
+            else false
+          let arrivedOpen (f : Frame) : Bool := match f.pkts.head? with
+            | some p => (match reachOf p with | some r => r.op ≥ nf | none => false)   -- (reach op n - 1: delivered by op n)
+            | none => false
+          (frames.find? (fun f => arrivedOpen f && okUpTo f && after f)).map (·.fid)
+        | _, _ => none
+      let start : Option Nat := match start, owedBySync with
+        | some a, some b => some (min a b)
+        | none, b => b
+        | a, none => a
       -- flush at the end of the recording: a complete frame whose packets all reached the recorder
       -- in time and that is still within the builder's window when the recording ends must be
       -- written (even behind a lost packet), once the track is being written to the file
@@ -579,7 +713,29 @@ def missingCheck (o : Orc) : Orc × Option String :=
           let freach := ((o.reached.find? (fun r => r.trk = trk && r.seq = (f.pkts.getLastD default).seq)).map (·.op)).getD 0
           let prevOp := ((o.blocks.filter (fun b => b.trk = trk && b.fid < f.fid)).map (·.op)).foldl max 0
           let fpop := ((o.pops.filter (fun x => x.1 = trk && x.2.1 = f.ts)).map (·.2.2)).foldl max freach
-          let srDrop := o.srOps.any (fun (t, sop) => t = trk && sop ≤ fpop && prevOp ≤ sop)
+          -- (a report that arrives before the track has an origin moves nothing: the origin of a video track
+          -- is fixed by the first packet of a keyframe, as sent, that reaches the recorder; that of an audio
+          -- track by its first packet, after the video track's if there is one)
+          let firstOp (t : Nat) (startOnly : Bool) (frm : Nat) : Option Nat :=
+            ((o.reached.filter fun r => r.trk = t && r.op ≥ frm &&
+                (!startOnly || o.sent.any (fun p => p.trk = t && p.seq = r.seq && p.kf && p.idx = 0))).map (·.op)).foldl
+              (fun (m : Option Nat) x => match m with | none => some x | some y => some (min x y)) none
+          let vtrk0 := (List.range o.codecs.length).find? (fun t => isVideoTrk o t)
+          let originOpOf (t : Nat) : Option Nat :=
+            if isVideoTrk o t then firstOp t true 0
+            else match vtrk0 with
+              | none => firstOp t false 0
+              | some vt => (firstOp vt true 0).bind fun vo => firstOp t false vo
+          let srDrop := o.srOps.any (fun (t, sop) => t = trk && sop ≤ fpop && prevOp ≤ sop &&
+            (match originOpOf trk with | some oo => oo ≤ sop | none => false))
+          -- a sender report for ANOTHER track moved that track's origin, and since the first sample of that
+          -- track that the builder returned afterwards nothing has been written on any track, nor a file
+          -- been created, up to the moment this frame was returned
+          let srClosed : Option (Nat × Nat) := o.srOps.findSome? fun (t', sop) =>
+            if t' = trk || sop > fpop || !(match originOpOf t' with | some oo => oo ≤ sop | none => false) then none else
+            let a := ((o.pops.filter (fun x => x.1 = t' && x.2.2 > sop && x.2.2 ≤ fpop)).map (·.2.2)).foldl min 1000000000
+            if a ≤ fpop && !o.blocks.any (fun b => a ≤ b.op && b.op ≤ fpop) && !o.fileOps.any (fun n => a ≤ n && n ≤ fpop)
+            then some (t', a) else none
           -- the keyframe that should have opened the file was popped only after the first packet of a
           -- later keyframe had arrived (savedKf remembers one keyframe only)
           let overtaken : Option (Frame × Frame) :=
@@ -588,10 +744,12 @@ def missingCheck (o : Orc) : Orc × Option String :=
             | none => none
             | some k =>
               let popOp := ((o.pops.filter (fun x => x.1 = trk && x.2.1 = k.ts)).map (·.2.2)).foldl max 0
-              (frames.filter (fun g => g.kf && g.fid > k.fid)).findSome? fun g =>
+              -- (a later keyframe, or an earlier one whose first packet arrives late: after that of k)
+              let kOp := ((k.pkts.head?).bind fun p => (o.reached.find? (fun r => r.trk = trk && r.seq = p.seq)).map (·.op)).getD 0
+              (frames.filter (fun g => g.kf && g.fid ≠ k.fid)).findSome? fun g =>
                 match g.pkts.head? with
                 | some p => match o.reached.find? (fun r => r.trk = trk && r.seq = p.seq) with
-                  | some r => if popOp > 0 && r.op ≤ popOp then some (k, g) else none
+                  | some r => if popOp > 0 && r.op ≤ popOp && (g.fid > k.fid || r.op > kOp) then some (k, g) else none
                   | none => none
                 | none => none
           let posOf (t seq : Nat) : Option Nat := (o.reached.find? (fun r => r.trk = t && r.seq = seq)).map (·.pos)
@@ -620,11 +778,42 @@ def missingCheck (o : Orc) : Orc × Option String :=
                   -- the keyframe that changed the dimensions is itself not in the recording
                   if bpos ≤ fpos + f.n && fpos ≤ npos + 1 && !o.blocks.any (fun x => x.trk = vt && x.fid = b.fid) then some (a, b) else none
                 else none
+          -- an audio frame that reaches the recorder after a further file has been started (file k ≥ 1) and
+          -- that is older than the new file's origin: a later frame of the track had already reached the
+          -- recorder since the file was started (it fixed the track's new origin), or, by the sender reports
+          -- both tracks had when the file was started, the frame was captured before the file's first keyframe
+          let fileSwitch : Option (Nat × String) :=
+            if video || o.codecs.length ≠ 2 then none else
+            let vt := 1 - trk
+            match reachOf (f.pkts.headD default) with
+            | none => none
+            | some rf =>
+              (o.fileOps.zipIdx.drop 1).findSome? fun (nf, k) =>
+                let nextNf := o.fileOps.getD (k + 1) 1000000000
+                -- (a packet delivered by op n has reach op n - 1; events of op n have op n)
+                if !(nf ≤ rf.op && rf.op < nextNf) then none else
+                let reordered := frames.any fun g => g.fid > f.fid &&
+                  (match g.pkts.head? with
+                   | some p => (match reachOf p with | some r => nf ≤ r.op && r.op < rf.op | none => false)
+                   | none => false)
+                let srAt (t : Nat) : Bool := o.srGood.any (fun (t', sop) => t' = t && sop ≤ nf)
+                let v0 := (o.blocks.filter (fun b => b.trk = vt && b.file = k)).getLast?
+                let early := srConsistent o 0 && srConsistent o 1 && srAt 0 && srAt 1 &&
+                  (match v0 with
+                   | some v0 =>
+                     let fv := (o.frames.find? (fun g => g.trk = vt && g.fid = v0.fid)).getD default
+                     (match capture o trk f.ts, capture o vt fv.ts with
+                      | some cf, some cv => (v0.tm : Int) * 1000000 + (cf - cv) < 2000000
+                      | _, _ => false)
+                   | none => false)
+                if reordered then some (k, "after a later frame of the track, which fixed the track's origin in the new file")
+                else if early then some (k, "was captured, by the sender reports, before the keyframe the file begins with")
+                else none
           if !dupIn.isEmpty then
             (defer o s!"C20: [SB-dup-newest] frame {f.fid} of track {trk} ({cn}) is missing from the recording although every packet reached the recorder: a second copy of packet(s) {dupIn}, the newest of the track at that moment, arrived while the frame was still in the third-party sample builder, which discards its whole buffer when the newest packet is repeated", none)
           else if overtaken.isSome then
             let (k, g) := overtaken.getD (default, default)
-            (defer o s!"C20: [kf-overtaken] frame {f.fid} of track {trk} ({cn}) is missing from the recording although every packet reached the recorder: keyframe {k.fid} was returned by the sample builder only after the first packet of the later keyframe {g.fid} had arrived; savedKf remembers only the newest keyframe, so frame {k.fid} was not treated as a keyframe and it and the frames up to keyframe {g.fid} were discarded (no file yet) ", none)
+            (defer o s!"C20: [kf-overtaken] frame {f.fid} of track {trk} ({cn}) is missing from the recording although every packet reached the recorder: keyframe {k.fid} was returned by the sample builder only after the first packet of {if g.fid > k.fid then "the later" else "the earlier (late)"} keyframe {g.fid} had arrived; savedKf remembers only the keyframe start that arrived last, so frame {k.fid} was not treated as a keyframe and it and the frames up to the next keyframe were discarded (no file yet) ", none)
           else if blackout.isSome then
             let (a, b) := blackout.getD (default, default)
             let da := match a.pkts.head? with | some p => s!"{p.w}x{p.h}" | none => "?"
@@ -632,12 +821,19 @@ def missingCheck (o : Orc) : Orc × Option String :=
             (defer o s!"C20: [dim-change] frame {f.fid} of track {trk} ({cn}) is missing from the recording although every packet reached the recorder: keyframe {b.fid} changed the video dimensions from {da} to {db}; initWriter closes the file, which clears every track's origin, so the keyframe itself and every sample of every track up to the next keyframe are discarded (\"Invalid origin\")", none)
           else if o.partialSeen.any (fun (t, pf) => t = trk && pf ≤ f.fid && f.fid ≤ pf + 64) then
             (defer o s!"C20: [SB-partial] frame {f.fid} of track {trk} ({cn}) is missing from the recording although every packet reached the recorder: the third-party sample builder had returned an incomplete frame before and the packets it left behind block or displace the following frame", none)
+          else if fileSwitch.isSome then
+            let (k, why) := fileSwitch.getD (0, "")
+            (defer o s!"C20: [file-switch] frame {f.fid} of track {trk} ({cn}) is missing from the recording although every packet reached the recorder: it reached the recorder after file {k} had been started (keyframe with new dimensions) and {why}: it is before the time origin of the new file, the file it belongs to is closed, and the sample is dropped as late", none)
+          else if srDrop then
+            (defer o s!"C20: [SR-shift] frame {f.fid} of track {trk} ({cn}) is missing from the recording although every packet reached the recorder: a sender report moved the origin of the track past the frame's timestamp and the sample was dropped as late", none)
+          else if srClosed.isSome then
+            let (t', a) := srClosed.getD (0, 0)
+            (defer o s!"C20: [SR-shift] frame {f.fid} of track {trk} ({cn}) is missing from the recording although every packet reached the recorder: a sender report moved the origin of track {t'} past the timestamps of its samples; nothing at all has been written since its next sample was returned (op {a}): moved by 2^16 ticks or more, the recorder takes the sample for a timestamp wrap and closes the file, and every track waits for the next keyframe", none)
+          -- (P22 was repaired in ce4d658: looked for last, when no known cause explains the loss)
           else if !recPad.isEmpty then
             (defer o s!"C20: [P22] frame {f.fid} of track {trk} ({cn}) is missing from the recording although every packet reached the recorder or was recovered from the cache: its packet(s) {recPad.map (·.seq)} carry RTP padding and were recovered from the cache; fetch unmarshals the whole 1504-byte buffer, whose last byte is 0, so the packet is rejected (invalid padding length)", none)
           else if kfRecovered && cn = "video/h264" then
             (defer o s!"C20: [P22] frame {f.fid} of track {trk} ({cn}) is missing from the recording although every packet was delivered or recovered: the first packet (STAP-A with the SPS) of its keyframe {(kfStart.map (·.fid)).getD 0} was recovered from the cache and, unmarshalled from the whole 1504-byte buffer, is no longer recognised as a keyframe start", none)
-          else if srDrop then
-            (defer o s!"C20: [SR-shift] frame {f.fid} of track {trk} ({cn}) is missing from the recording although every packet reached the recorder: a sender report moved the origin of the track past the frame's timestamp and the sample was dropped as late", none)
           else
             (o, some s!"C20: frame {f.fid} of track {trk} ({cn}, timestamp {f.ts}, {f.n} packets) is missing from the recording although it and every packet before it reached the recorder or was recovered from the cache (first frame owed: {s})"))
     (o, none)
@@ -766,7 +962,8 @@ def step (st : St) (op impl : List String) : St × Verdict :=
       let n := tracks.length
       let orc : Orc := { codecs := tracks.map (·.codec), rates := tracks.map (·.rate),
                          cacheSizes := ts.map (·.2), nsent := List.replicate n 0,
-                         seq0 := List.replicate n none, maxLin := List.replicate n none, startLin := List.replicate n none, srSince := List.replicate n false }
+                         seq0 := List.replicate n none, maxLin := List.replicate n none, startLin := List.replicate n none, srSince := List.replicate n false,
+                         ts0 := List.replicate n none, agg := List.replicate n none }
       ({ conn := some conn, caches := ts.map (fun x => Cache.new x.2), pkts := [], orc }, cmp s!"ok {n}" impl)
   | ["p", trk, fid, idx, n, kf, w, h, pk, pad, pre, off, hx] =>
     match nat? trk, nat? fid, nat? idx, nat? n, bool? kf, nat? w, nat? h, nat? pad, unhex pre, nat? off, unhex hx with
@@ -814,13 +1011,27 @@ def step (st : St) (op impl : List String) : St × Verdict :=
           if e.front = 'g' then
             match fields (e.drop 1).toString with
             | [s, n] => match nat? s, nat? n with
-              | some s, some n => if n > 0 then reach { o with recovered := (trk, s) :: o.recovered } trk s true else o
+              | some s, some n =>
+                if n > 0 then
+                  let o := match o.sent.find? (fun p => p.trk = trk && p.seq = s) with
+                    | some p => arrive o trk p.ts
+                    | none => o
+                  let o := { o with recovered := (trk, s) :: o.recovered }
+                  -- (noticeGap has just counted it as reaching the recorder, in this op: the fetch itself is
+                  -- not a second copy of the packet)
+                  if o.reached.any (fun r => r.trk = trk && r.seq = s && r.op = o.opn && r.recovered) then o
+                  else reach o trk s true
+                else o
               | _, _ => o
             | _ => o
           else o) o
         let o := if raw then o else
           match nat? arg with
-          | some seq => reach { o with delivered := (trk, seq) :: o.delivered } trk seq false
+          | some seq =>
+            let o := match o.sent.find? (fun p => p.trk = trk && p.seq = seq) with
+              | some p => arrive o trk p.ts
+              | none => o
+            reach { o with delivered := (trk, seq) :: o.delivered } trk seq false
           | none => o
         let (o, e) := onEvents o evs fcs
         let jump : Int := match st.orc.maxLin.getD trk none, nat? arg with
@@ -834,6 +1045,20 @@ def step (st : St) (op impl : List String) : St × Verdict :=
               some s!"C20: [SB-panic] diskTrack.Write panicked inside the third-party sample builder ({h}) when a packet {jump} seqnos ahead of the newest one of track {trk} ({codecName o trk}) arrived; nothing recovers the panic: the server process exits"
             else if h.startsWith "panic" then some s!"C20: Write panicked: {h}" else none
         finish { st with conn := some r.conn } o model (implLine impl) e
+  | ["at", _ms] =>
+    match st.conn, impl with
+    | none, _ => (st, cmp "norec" impl)
+    | some _, ["ok", a, b] =>
+      match nat? a, nat? b with
+      | some entry, some exit =>
+        let o := closeBracket st.orc entry
+        let (o, e) := judgePairs o
+        let o := { o with paced := true, atExit := exit }
+        (match e with
+         | some e => ({ st with orc := o }, .oracle e)
+         | none => ({ st with orc := o }, .ok))
+      | _, _ => (st, .badop "at: result")
+    | some _, _ => (st, .badop "at: result")
   | ["sr", trk, ntp, rtp] =>
     match st.conn, nat? trk, nat? ntp, nat? rtp with
     | none, _, _, _ => (st, cmp "norec" impl)
@@ -842,7 +1067,11 @@ def step (st : St) (op impl : List String) : St × Verdict :=
       let c' := setTimeOffset c trk ntp rtp (c.track trk).rate
       let o := st.orc
       let o := { o with opn := o.opn + 1 }
-      let o := { o with srs := (trk, ntp, rtp) :: o.srs, srOps := (trk, o.opn) :: o.srOps, srSince := o.srSince.set trk true, alignFrom := o.nblocks }
+      -- (a report whose NTP time is 0 says nothing about capture times: rtptime has no such instant and the
+      -- recorder takes it for "no report yet")
+      let o := { o with srs := if ntp = 0 then o.srs else (trk, ntp, rtp) :: o.srs, srOps := (trk, o.opn) :: o.srOps,
+                        srGood := if ntp = 0 then o.srGood else (trk, o.opn) :: o.srGood,
+                        srSince := o.srSince.set trk true, alignFrom := o.nblocks }
       finish { st with conn := some c' } o (modelLine none [] c' []) (implLine impl) none
     | _, _, _, _ => (st, .badop "sr")
   | ["so", trk, ts, now] =>
@@ -895,6 +1124,9 @@ def step (st : St) (op impl : List String) : St × Verdict :=
           else match filesCheck o impl with
             | some e => (o, some e)
             | none =>
+              match judgePairs o with
+              | (o, some e) => (o, some e)
+              | (o, none) =>
               match missingCheck o with
               | (o, some e) => (o, some e)
               | (o, none) => (o, o.deferred)
